@@ -155,4 +155,120 @@ theorem draw_shape (width : G → Int) (m : TI G) (prompt : List G) (winW : Int)
         cases hd
         exact ⟨col, rfl, rfl, rfl, rfl⟩
 
+/-! ### Windows with room for the scroll margin: the cursor is at its grapheme -/
+
+/-- What the forward scroll loop establishes: it stops at the cursor, or with the text from the offset to the cursor
+(inclusive) plus the margin inside the window. -/
+theorem scrollLoop_post (width : G → Int) (content : List G) (cursor col winW : Int) :
+    ∀ (fuel : Nat) (offset off : Int), scrollLoop width content cursor col winW fuel offset = some off →
+    ¬ (off < cursor ∧ widthToCursor width cursor off content 0 0 + col + 4 ≥ winW) := by
+  intro fuel
+  induction fuel with
+  | zero => intro offset off h; simp [scrollLoop] at h
+  | succ n ih =>
+    intro offset off h
+    unfold scrollLoop at h
+    split at h
+    · exact ih (offset + 1) off h
+    · rename_i hc
+      simp only [Option.some.injEq] at h
+      rw [← h]; exact hc
+
+theorem textWidth_take_mono (width : G → Int) (hw : ∀ g, 0 ≤ width g) : ∀ (l : List G) (n : Nat),
+    textWidth width (l.take n) ≤ textWidth width (l.take (n + 1)) := by
+  intro l
+  induction l with
+  | nil => intro n; simp [textWidth]
+  | cons g gs ih =>
+    intro n
+    cases n with
+    | zero => have := hw g; simp [textWidth]; omega
+    | succ n => simp only [List.take_succ_cons, textWidth]; have := ih n; omega
+
+theorem textWidth_take_le (width : G → Int) (hw2 : ∀ g, width g ≤ 2) : ∀ (l : List G) (n : Nat),
+    textWidth width (l.take n) ≤ 2 * n := by
+  intro l
+  induction l with
+  | nil => intro n; simp [textWidth]; omega
+  | cons g gs ih =>
+    intro n
+    cases n with
+    | zero => simp [textWidth]
+    | succ n => simp only [List.take_succ_cons, textWidth]; have := ih n; have := hw2 g; omega
+
+/-- From the offset on, `widthToCursor` is at least the display width of the graphemes before the cursor. -/
+theorem widthToCursor_ge_past (width : G → Int) (hw : ∀ g, 0 ≤ width g) (cursor offset : Int) :
+    ∀ (l : List G) (i w : Int), offset ≤ i →
+      w + textWidth width (l.take (cursor - i).toNat) ≤ widthToCursor width cursor offset l i w := by
+  intro l
+  induction l with
+  | nil => intro i w _; simp [widthToCursor, textWidth]
+  | cons g gs ih =>
+    intro i w hi
+    have h1 : ¬ i < offset := by omega
+    have hg := hw g
+    unfold widthToCursor
+    simp only [h1, if_false]
+    by_cases hc : i = cursor
+    · subst hc
+      have e : (i - i).toNat = 0 := by omega
+      rw [e]
+      simp only [if_true, List.take_zero, textWidth]
+      omega
+    · simp only [hc, if_false]
+      have := ih (i + 1) (w + width g) (by omega)
+      by_cases hlt : i < cursor
+      · have e : (cursor - i).toNat = (cursor - (i + 1)).toNat + 1 := by omega
+        rw [e, List.take_succ_cons]
+        simp only [textWidth]
+        omega
+      · have e : (cursor - i).toNat = 0 := by omega
+        have hnn := textWidth_nonneg width hw (gs.take (cursor - (i + 1)).toNat)
+        rw [e]
+        simp only [List.take_zero, textWidth]
+        omega
+
+theorem widthToCursor_skip (width : G → Int) (cursor offset : Int) :
+    ∀ (l : List G) (i w : Int), i ≤ offset →
+      widthToCursor width cursor offset l i w = widthToCursor width cursor offset (l.drop (offset - i).toNat) offset w := by
+  intro l
+  induction l with
+  | nil => intro i w _; simp [widthToCursor]
+  | cons g gs ih =>
+    intro i w hi
+    by_cases hlt : i < offset
+    · have hk : (offset - i).toNat = (offset - (i + 1)).toNat + 1 := by omega
+      rw [hk, List.drop_succ_cons, ← ih (i + 1) w (by omega)]
+      conv => lhs; unfold widthToCursor
+      simp only [hlt, if_true]
+    · have he : i = offset := by omega
+      have hk : (offset - i).toNat = 0 := by omega
+      rw [hk, List.drop_zero, he]
+
+/-- The richer shape of a `Draw` that shows the cursor: the offset it leaves is the forward loop's result, pulled
+back to `cursor - 4` when the cursor is within four graphemes of it, and never negative. -/
+theorem draw_shape_offset (width : G → Int) (m : TI G) (prompt : List G) (winW : Int) (m' : TI G) (c : Int)
+    (hd : draw width m prompt winW = .shown m' c) :
+    ∃ col off off0, promptLoop width winW prompt 0 = some col ∧ (off0 = 0 ∨ off0 = m.offset) ∧
+      scrollLoop width m.content m.cursor col winW (m.content.length + 2) off0 = some off ∧
+      m'.offset = (let o := if m.cursor - 4 - off < 0 then m.cursor - 4 else off; if o < 0 then 0 else o) := by
+  unfold draw at hd
+  by_cases hw : winW = 0
+  · simp only [hw, ↓reduceIte] at hd; cases hd
+  · simp only [hw, ↓reduceIte] at hd
+    cases hp : promptLoop width winW prompt 0 with
+    | none => simp only [hp] at hd; cases hd
+    | some col =>
+      simp only [hp] at hd
+      cases hs : scrollLoop width m.content m.cursor col winW (m.content.length + 2)
+          (if widthToCursor width m.content.length 0 m.content 0 0 + col + 4 < winW then 0 else m.offset) with
+      | none => simp only [hs] at hd; cases hd
+      | some off =>
+        simp only [hs] at hd
+        cases hd
+        refine ⟨col, off, _, rfl, ?_, hs, rfl⟩
+        split
+        · exact Or.inl rfl
+        · exact Or.inr rfl
+
 end VaxisModel.Lemmas.TextInputScroll
